@@ -1,14 +1,25 @@
 """C12 An exclusive lock never coexists with another active lock.
 
-Design: Lock.tla model-checked exhaustively (Exclusion and the C13 invariants) + negative twin without the second
-check (must be refuted).  Conformance: TLC-generated schedules (simulation of Lock.tla: process starts, every
-backend operation of every process as one step, waits/ticks, crashes, unlocks, List/Load faults, `unlock` stale
-removal, remote lock files) are replayed into real lockers inside a synctest bubble; every recorded observation is
-judged by TLC with LockObs!Exclusion (LockRec12!RecOK)."""
+Design: Lock.tla model-checked exhaustively (Exclusion and the C13 invariants), also under LISTING DELAY (a new lock
+file shows up in listings only after time has passed) and with a third party whose clock is ahead by the full
+documented margin (7.5 min) running `unlock` (ExclusionMargin: a robbed holder may coexist with a newcomer only
+while it is stalled on its way to the existence check of its forced refresh).  Negative twins that TLC must refute:
+no second check; sleep before create (refuted only under listing delay); forced refresh that ignores the vanished
+lock file.
+Conformance: TLC-generated schedules (simulation of Lock.tla: process starts, every backend operation of every
+process as one step, waits/ticks, crashes, unlocks, List/Load faults, Save/Remove faults, `unlock` stale removal by a
+third party with / without clock skew, remote lock files, with / without listing delay) and TARGETED schedules (TLC
+in BFS mode prints the shortest behaviour reaching rarely visited protocol branches: lock file removed between the
+two existence checks of the forced refresh while a newcomer acquires, both lockers in the second check, ...) are
+replayed into real lockers inside a synctest bubble; every recorded observation is judged by TLC with
+LockObs!ExclusionWithinMargin (LockRec12!RecOK)."""
 import concurrent.futures as cf
 import json, os
 import verif
 from props import lock_common as lc
+
+SKEW_BUDGET = 100   # s: total stall per process in schedules with a skewed third party (see assumptions)
+GOAL_ATTRS = {"Lock_q_skew2_goals.cfg": {"n": 2, "budget": SKEW_BUDGET}, "Lock_q_lag_goals.cfg": {"n": 2, "lag": True}}
 
 
 def families(ctx):
@@ -20,49 +31,74 @@ def families(ctx):
         ("pair", 2, g(2, 16, 1, "ReadFaults", 1, "FALSE", "RemotesSome", 90, 2, "TRUE", 14)),
         ("rem2", 2, g(2, 6, 1, "NoFaults", 0, "FALSE", "RemotesSome", 50, 2, "TRUE", 6)),
         ("stale2", 2, g(2, 16, 1, "NoFaults", 0, "FALSE", "RemotesSome", 90, 2, "TRUE", 2)),
+        # listing delay: racing lockers
+        ("lag2", 2, g(2, 3, 1, "NoFaults", 0, "FALSE", "RemotesSome", 50, 2, "FALSE", 1, listlag="TRUE"), {"lag": True}),
+        ("lag3", 3, g(3, 3, 1, "NoFaults", 0, "FALSE", "RemotesNone", 70, 2, "TRUE", 1, listlag="TRUE"), {"lag": True}),
+        # a third party whose clock is ahead by 7.5 min runs `unlock`; long Save/Remove faults make the regular
+        # refreshes fail so that the expiry monitor forces a refresh; a newcomer arrives late
+        ("skew2", 2, g(2, 14, 1, "WriteFaults", 2, "FALSE", "RemotesNone", 130, 2, "FALSE", 14, healodds=40,
+                       maxskew=3, fixskew="TRUE", edge="TRUE", startfrom=9), {"budget": SKEW_BUDGET}),
     ]
 
 
+def classify(r):
+    """index of the first observation that violates LockObs!ExclusionWithinMargin and a stable class key (the verdict
+    is TLC's; this only names it)"""
+    for j, o in enumerate(r["obs"]):
+        h = lc.holders(o)
+        exc = lambda i: o["p"][i][3] == 1 and o["now"] - o["p"][i][8] <= 60000 + o["p"][i][4]
+        for a in h:
+            for b in h:
+                if a != b and o["p"][a][2] == 1 and not exc(a) and not exc(b):
+                    kinds = "excl+" + ("excl" if o["p"][b][2] == 1 else "shared")
+                    rob = "/robbed-holder-keeps-believing" if (o["p"][a][3] == 1 or o["p"][b][3] == 1) else ""
+                    probe = "/newcomer" if max(a, b) >= r["n"] else ""
+                    return j, kinds + rob + probe
+        rem = [m for m in o["r"] if o["now"] - m[0] < 1350000]
+        ex_ = [x for x in h if o["p"][x][2] == 1]
+        if h and rem and (ex_ or any(m[1] == 1 for m in rem)):
+            return j, "with-remote-holder" + ("/newcomer" if max(h) >= r["n"] else "")
+    return None, "unclassified"
+
+
 def run(ctx):
-    per_family = ctx.pick(75, 1200)
-    with cf.ThreadPoolExecutor(max_workers=2) as ex:
-        fd = ex.submit(lc.design_runs, ctx, ctx.pick(["q_acq", "q_hold"], ["acq3", "acq2", "hold2"]),
-                       {"acq2_norecheck": ["InvExclusion"]})
+    per_family = ctx.pick(60, 1000)
+    early = ["q_skew2_goals", "q_lag_goals"]          # their goal witnesses become schedules
+    late = ctx.pick(["q_acq", "q_hold"], ["acq3", "acq2", "hold2", "lag2", "lag3", "skew2", "skew2e"])
+    twins = {"acq2_norecheck": ["InvExclusion"], "lag2_sleepfirst": ["InvExclusion"], "skew2_f2ignore": ["InvExclusionMargin"]}
+    if ctx.thorough():
+        # the premise matters: clock ahead by the full margin AND a stall of 2.5 min defeat the protocol
+        twins["skew2e_budget1"] = ["InvExclusionMargin"]
+    with cf.ThreadPoolExecutor(max_workers=3) as ex:
+        fe = ex.submit(lc.design_runs, ctx, early, {}, 2)
         fg = ex.submit(lc.generate, ctx, families(ctx), per_family)
-        scheds = fg.result()
-        design = fd.result()
-    vec = lc.write_scheds(ctx, scheds)
-    out = ctx.go_test("internal/repository", "^TestVerif_C12$", tags=lc.TAGS, env={"VERIF_VECTORS": vec}, timeout=3000)
-    n, bad, lines = ctx.check_records("LockRec12", os.path.join(out, "recs.ndjson"), shard=ctx.pick(200, 400))
+        fl = ex.submit(lc.design_runs, ctx, late, twins, ctx.pick(2, 4))
+        design = fe.result()
+        goals = lc.goal_scheds(design, GOAL_ATTRS)
+        if not any("robbed-before-fsave-newcomer-holds" in s["id"] for s in goals) or not any("both-in-second-check" in s["id"] for s in goals):
+            raise verif.MachineryError("TLC did not reach the goal states (targeted schedules missing): %s" % [s["id"] for s in goals])
+        scheds = goals + fg.result()
+        vec = lc.write_scheds(ctx, scheds)
+        out = ctx.go_test("internal/repository", "^TestVerif_C12$", tags=lc.TAGS, env={"VERIF_VECTORS": vec}, timeout=3000)
+        n, bad, lines = ctx.check_records("LockRec12", os.path.join(out, "recs.ndjson"), shard=ctx.pick(350, 500))
+        design += fl.result()
     for i in bad[:200]:
         r = json.loads(lines[i - 1])
-        k, key = None, "unclassified"
-        for j, o in enumerate(r["obs"]):
-            h = lc.holders(o)
-            ex_ = [x for x in h if o["p"][x][2] == 1]
-            rem = [m for m in o["r"] if o["now"] - m[0] < 1350000]
-            if ex_ and len(h) > 1:
-                other = [x for x in h if x != ex_[0]][0]
-                kinds = "excl+" + ("excl" if o["p"][other][2] == 1 else "shared")
-                probe = "/newcomer" if max(h) >= r["n"] else ""
-                k, key = j, kinds + probe
-                break
-            if h and rem and (ex_ or any(m[1] == 1 for m in rem)):
-                k, key = j, "with-remote-holder" + ("/newcomer" if max(h) >= r["n"] else "")
-                break
+        k, key = classify(r)
         ctx.violate("lock/exclusion/" + key,
-                    "two processes believe to hold conflicting locks (LockObs!Exclusion false): schedule %s, observation %s" % (r["sched"], r["obs"][k] if k is not None else "?"),
+                    "two processes believe to hold conflicting locks (LockObs!ExclusionWithinMargin false): schedule %s, observation %s" % (r["sched"], r["obs"][k] if k is not None else "?"),
                     lc.slim(r, k))
     res = ctx.go_results[-1]
     pos = [d for d in design if not d["twin"]]
     cov = {"states": sum(d["states"] for d in pos), "transitions": sum(d["transitions"] for d in pos),
            "traces_validated_against_impl": n, "records_rejected": len(bad),
-           "design_runs": design, "schedules_generated_by_tlc": len(scheds),
+           "design_runs": design, "schedules_generated_by_tlc": len(scheds), "targeted_schedules": [s["id"] for s in goals],
            "evaluations": n, "distinct_nontrivial": res["distinct_nontrivial"], "rule": res["rule"],
            "counters": res.get("counters", {}), "samples": res.get("samples", [])[:3]}
     return verif.finish(ctx, "model_checking", cov, [
-        "all lockers of one schedule share the virtual clock of the synctest bubble (no skew in replays; skew <= 1 unit of 2.5 min is explored in the design model only)",
-        "premise of the statement enforced by the harness: the gates stall one process for at most 5 minutes in total; removal of live lock files (unlock --remove-all) is not part of C12 schedules",
+        "all lockers of one schedule share the virtual clock of the synctest bubble; the third party running `unlock` is the only skewed clock in replays (ahead by 0 or by the full margin of 7.5 min: the harness lists and loads the lock files with the real forAllLocks and applies the age test of lockHandle.stale() on the skewed clock); other skews are explored in the design model only",
+        "premise of the statement as enforced by the harness: the gates stall one process for at most 5 minutes in total, and for at most %d s in schedules with the skewed third party (with a clock ahead by 7.5 min AND a lock-file Save stalled for >= 2.5 min the protocol itself lets a robbed holder and a newcomer coexist for good: design run Lock_skew2e_budget1.cfg); removal of live lock files by `unlock --remove-all` is not part of C12 schedules" % SKEW_BUDGET,
+        "a holder whose lock file was removed by the skewed third party may coexist with a newcomer for at most 1 min (monitor poll, 200 ms waits, retry delays) + the time the harness stalled it (LockObs!ExclusionMargin); without such a removal no coexistence is accepted",
         "remote holders (other host) are scripted lock files: such a holder is taken to use the repository until its file is 22.5 min old",
-        "in-memory backend with atomic, immediately visible operations; one connection (lock files are loaded one at a time)",
+        "in-memory backend with atomic operations; listing delay (families lag2/lag3 and targeted schedules): a new lock file is listed only 100 ms of virtual time after it was saved, removals are visible at once; one connection (lock files are loaded one at a time)",
     ], exhaustive=False)
